@@ -58,7 +58,7 @@ from prompt_toolkit.output import DummyOutput
 
 ID = "C04"
 DRIVER = "drv_c04"
-PROPS = ["Ptk.Props.C04", "Ptk.Props.C04Rule", "Ptk.Props.C04F", "Ptk.Props.C04KB"]
+PROPS = ["Ptk.Props.C04", "Ptk.Props.C04Rule", "Ptk.Props.C04F", "Ptk.Props.C04KB", "Ptk.Props.C04W"]
 SERIAL = False
 TECHNIQUE = "Lean 4 proof about an executable model + differential correspondence + property oracle"
 LEVEL_TEXT = ("Lean 4 theorems over an executable model of KeyProcessor._process / process_keys (generic in the "
@@ -508,19 +508,30 @@ class Sim:
         after = list(self.kp.key_buffer)
         calls = [r for r in self.log[cur["first"]:] if r["kind"] == "call"]
         consumed = [k for k in x if not any(k is a for a in after)]
-        in_call = lambda k: any(k is s for c in calls for s in c["seq"])
+        in_call = lambda k: any(k is s for c in calls if "R" not in c["tail"] for s in c["seq"])
+        # keys pushed back to the front of the input queue (application done): a prefix of the queue
+        # made of keys that were in the buffer and were not handed to a handler
+        requeued = []
+        for k in self.kp.input_queue:
+            if any(k is y for y in consumed) and not in_call(k) and not any(k is y for y in requeued):
+                requeued.append(k)
+            else:
+                break
         items = []   # (position, order, text)
         pos_of = lambda k: next((i for i, y in enumerate(x) if y is k), len(x))
         for n, c in enumerate(calls):
             p = pos_of(c["seq"][0]) if c["seq"] else len(x)
             items.append((p, n, c))
         for k in consumed:
-            if not in_call(k):
+            if not any(k is s for c in calls for s in c["seq"]) and not any(k is y for y in requeued):
                 items.append((pos_of(k), -1, {"kind": "drop", "key": k}))
         items.sort(key=lambda t: (t[0], t[1]))
-        self.log[cur["first"]:] = [t[2] for t in items]
+        out = [t[2] for t in items]
+        if requeued:
+            out.append({"kind": "requeue", "keys": requeued})
+        self.log[cur["first"]:] = out
         if self.observe:
-            self.observe.on_send_exit(self, kp, x, after, [t[2] for t in items])
+            self.observe.on_send_exit(self, kp, x, after, out)
 
     def repr_kp(self, k) -> str:
         if k is kpmod._Flush:
@@ -540,6 +551,8 @@ class Sim:
                 out.append("D" + self.repr_kp(r["key"]))
             elif r["kind"] == "P":
                 out.append("P" + self.repr_kp(r["key"]))
+            elif r["kind"] == "requeue":
+                out.append("Q" + self.repr_kps(r["keys"]))
             else:
                 out.append(r["kind"])
         return out
@@ -833,7 +846,7 @@ class Observer:
         flat = flat_entries(sim, root)
         if flat is None:
             return None
-        return [e.evaluate() for e in flat]
+        return {"view": [e.evaluate() for e in flat], "done": bool(sim.app.is_done)}
 
     def on_process_start(self, sim):
         self.q_shadow = list(sim.kp.input_queue)
@@ -880,6 +893,7 @@ class Observer:
         self.q_shadow = list(sim.kp.input_queue)
         flush = kp is kpmod._Flush
         calls = [r for r in items if r["kind"] == "call"]
+        requeues = [r for r in items if r["kind"] == "requeue"]
         raised = any("R" in c["tail"] for c in calls)
         if raised:
             self.raised = True
@@ -888,28 +902,38 @@ class Observer:
         for r in items:
             if r["kind"] == "drop":
                 seq.append(r["key"])
+            elif r["kind"] == "requeue":
+                seq += r["keys"]
             elif "R" not in r["tail"]:
                 seq += r["seq"]
         total = seq + after
         if len(total) != len(x) or any(a is not b for a, b in zip(total, x)):
             self.bad("KeyProcessor._process", "conservation",
-                     "buffer+key %s became delivered/dropped %s + pending %s" % (
+                     "buffer+key %s became delivered/dropped/requeued %s + pending %s" % (
                          sim.repr_kps(x), sim.repr_kps(seq), sim.repr_kps(after)))
             return
         # the documented rule, replayed on the snapshots
-        view = self.snap
+        snap = self.snap
         buf = list(x)
         pending_calls = list(calls)
         drops = [r["key"] for r in items if r["kind"] == "drop"]
+        expect_requeue = None
         fl = flush
         steps = 0
+        first = True
         while True:
             steps += 1
-            if view is None or steps > 50:
+            if snap is None or steps > 50:
                 return
             if not buf:
                 break
-            d = documented_rule(view, tuple(k.key for k in buf), fl)
+            if not first and snap["done"]:
+                # the application is done: the rest of the buffer becomes typeahead
+                expect_requeue = list(buf)
+                buf = []
+                break
+            first = False
+            d = documented_rule(snap["view"], tuple(k.key for k in buf), fl)
             fl = False
             if d[0] == "wait":
                 break
@@ -938,7 +962,7 @@ class Observer:
                 return
             if "R" in c["tail"]:
                 break
-            view = c.get("snap_after")
+            snap = c.get("snap_after")
             buf = buf[n:]
             if exact:
                 break
@@ -946,6 +970,14 @@ class Observer:
             c = pending_calls[0]
             self.bad("KeyProcessor._process", "unexpected handler call",
                      "h%d with %s; buffer %s flush=%r" % (c["hid"], sim.repr_kps(c["seq"]), sim.repr_kps(x), flush))
+            return
+        got_requeue = requeues[0]["keys"] if requeues else None
+        if (expect_requeue is None) != (got_requeue is None) or (expect_requeue is not None and (
+                len(expect_requeue) != len(got_requeue) or any(a is not b for a, b in zip(expect_requeue, got_requeue)))):
+            self.bad("KeyProcessor._process", "typeahead after exit",
+                     "buffer %s: expected to be pushed back %s, was %s" % (
+                         sim.repr_kps(x), expect_requeue and sim.repr_kps(expect_requeue),
+                         got_requeue and sim.repr_kps(got_requeue)))
             return
         if not raised and (len(buf) != len(after) or any(a is not b for a, b in zip(buf, after))):
             self.bad("KeyProcessor._process", "pending buffer",
